@@ -5,12 +5,12 @@
 prop=$1; patch=$(readlink -f $2); demo=$(readlink -f $3); shift 3
 wt=/tmp/seedeval-$prop-$$
 git -C /repo worktree add -q $wt HEAD >/dev/null 2>&1 || { echo '{"error":"worktree"}'; exit 2; }
-cleanup() { git -C /repo worktree remove --force $wt >/dev/null 2>&1; }
+cleanup() { git -C /repo worktree remove --force $wt >/dev/null 2>&1; rm -f /tmp/seedeval_*.$$.*; }
 trap cleanup EXIT
-if ! git -C $wt apply $patch 2>/tmp/seedeval_apply.err; then echo "{\"error\":\"patch does not apply: $(head -c 200 /tmp/seedeval_apply.err | tr '\n\"' '  ')\"}"; exit 3; fi
+if ! git -C $wt apply $patch 2>/tmp/seedeval_apply.$$.err; then echo "{\"error\":\"patch does not apply: $(head -c 200 /tmp/seedeval_apply.$$.err | tr '\n\"' '  ')\"}"; exit 3; fi
 passed=$(cd $wt && /venv/bin/python -m pytest -q -p no:cacheprovider --timeout=900 --continue-on-collection-errors 2>&1 | tail -1 | grep -o '[0-9]* passed' | grep -o '[0-9]*')
-timeout 600 /venv/bin/python $demo $wt >/tmp/seedeval_demo_changed.out 2>&1; rc_changed=$?
-timeout 600 /venv/bin/python $demo /repo >/tmp/seedeval_demo_orig.out 2>&1; rc_orig=$?
+timeout 600 /venv/bin/python $demo $wt >/tmp/seedeval_demo_changed.$$.out 2>&1; rc_changed=$?
+timeout 600 /venv/bin/python $demo /repo >/tmp/seedeval_demo_orig.$$.out 2>&1; rc_orig=$?
 results=""
 for id in $prop "$@"; do
   out=$(cd /verif && VERIF_COLA_PATH=$wt timeout 1500 ./check $id --tier quick 2>&1); rc=$?
